@@ -24,7 +24,7 @@ var (
 
 	c02AttrNames = []string{"class", "id", "title", "href", "data-x"}
 	c02AttrVals  = []string{"a", "a b", "&amp;", "&lt;", "&quot;", "'", " a ", "&amp;lt;", "x&gt;y", "&#39;q"}
-	c02Texts     = []string{"t", "&amp;", "&lt;b&gt;", "a &lt; b &amp; c", "&amp;lt;", "&#39;", "x &amp; y; z", "\"q\""}
+	c02Texts     = []string{"t", "&amp;", "&lt;b&gt;", "a &lt; b &amp; c", "&amp;lt;", "&#39;", "x &amp; y; z", "\"q\"", "&nbsp;", "a&nbsp;b", "&nbsp;x&nbsp;", "\u00a0", "\u2003"}
 )
 
 type c02Case struct {
@@ -348,6 +348,7 @@ func c02Enumerate(tier string, emit func(core.Case)) {
 			emit(&c02Case{Part: "text", Src: fmt.Sprintf("<%s>%s</%s>", tag, t, tag)})
 			emit(&c02Case{Part: "text", Src: fmt.Sprintf("<div><%s>%s<i>k</i></%s></div>", tag, t, tag)})
 			emit(&c02Case{Part: "text", Src: fmt.Sprintf("<%s><i>k</i>%s</%s>%s", tag, t, tag, t)})
+			emit(&c02Case{Part: "text", Src: fmt.Sprintf("<div><%s>k</%s>%s<%s>k</%s></div>", tag, tag, t, tag, tag)})
 			for _, t2 := range c02Texts {
 				emit(&c02Case{Part: "text", Src: fmt.Sprintf("<%s>%s<br>%s</%s>", tag, t, t2, tag)})
 			}
